@@ -276,7 +276,10 @@ class fixed_init:
     raises = [(OverflowError, "timedelta_range", lambda self, offset, name: Not(stdlib.td_in_range(sym.mul(offset, M))))]
 
     def result(F, self, offset, name):
-        return stdlib.fixed_zone(FixedTimezone, offset, name)
+        from pyvc.world import SymStr
+
+        # without a name __init__ renders one from the offset ("+hh:mm"): an abstract, non-None string
+        return stdlib.fixed_zone(FixedTimezone, offset, name if name is not None else SymStr([("fmt", offset, "utc-offset-name")]))
 
     def ensures(result, self, offset, name):
         return [("offset_recorded", eq(result._offset, offset)), ("utcoffset_is_that_many_seconds", eq(result._utcoffset.us, sym.mul(offset, M))),
